@@ -824,6 +824,26 @@ class Sim:
                         st, v = call(lambda: copy3 == f)
                         if st == "exc" or v is not False:
                             self.fail("mapping:eq-true-for-different", what="one column renamed (reversed)", got=v if st == "ok" else exc_name(v))
+            # ... a store in which one table has one column more, or one column fewer (a strict superset / subset of the
+            # column names, all shared columns equal) ...
+            if self.model[b]:
+                for what in ("one more column", "one column fewer"):
+                    st, copy4 = call(self.durable_copy, f)
+                    if st == "exc":
+                        break
+                    cells0 = self.model[b][c][next(iter(self.model[b][c]))]
+                    if what == "one more column":
+                        st2, _ = call(lambda: copy4[b][c].__setitem__("zz_extra_col", self.S.column([list(x) for x in cells0], "column")))
+                    elif len(self.model[b][c]) > 1:
+                        st2, _ = call(lambda: copy4[b][c].__delitem__(next(iter(self.model[b][c]))))
+                    else:
+                        continue
+                    if st2 == "exc":
+                        continue
+                    for side, fn in (("left", lambda: f == copy4), ("right", lambda: copy4 == f)):
+                        st, v = call(fn)
+                        if st == "exc" or v is not False:
+                            self.fail("mapping:eq-true-for-different", what=what, live_store_on=side, got=v if st == "ok" else exc_name(v))
             # ... and so must a store in which one table has its last row once more (another row count)
             if self.model[b]:
                 st, copy2 = call(self.durable_copy, f)
